@@ -6,7 +6,7 @@ from sa.model import AnalysisError, Unknown, norm, unwrap, EnumMember
 from sa.query import Facts, call_name, find_calls, try_fold, calls_in, defs_of, kwarg
 from sa.prov import Prov
 from sa.layout import Layout
-from .common import firmware, send_sites, protocol_classes
+from .common import firmware, send_sites, protocol_classes, fold_local, answer_field
 from sa.decide import Walker, completions, cmp_parts, is_pure, values_at
 from .c06 import _strip
 
@@ -124,6 +124,18 @@ def run(run):
                       key=f"sign_authorized|{opn}|initial-bytes", where=sa.loc(c),
                       message=f"{opn}: initial_bytes (`{norm(ib) if ib is not None else None}`) is not the data byte of the answer to the previous step "
                               f"({why}): the first chunk would be sized by a stale or foreign request")
+    # the extradata (witness script, outpoint value) is built exactly for the segwit mode
+    for d_ in PV.defs(sa, D).get("ed_bytes", []) if "ed_bytes" in PV.defs(sa, D) else []:
+        lay_ = _lay(run, PV, sa, D, d_.value, d_.cnode) if d_.value is not None else set()
+        ts_ = F.expanded(sa, D, d_.cnode, PV)
+        seg = "sighash_computation_mode == SighashComputationMode.SEGWIT" in ts_
+        if lay_ == {""}:
+            run.check("R1", not seg and not any("sighash_computation_mode" in t for t in ts_), "empty extradata is the unconditional default",
+                      key="sign_authorized|BTC_TX|extradata-default", where=sa.loc(d_.node), message="the empty extradata default is conditional on the sighash mode")
+        else:
+            run.check("R1", seg, "extradata built exactly when the mode is SEGWIT", key="sign_authorized|BTC_TX|extradata-guard", where=sa.loc(d_.node),
+                      message=f"the segwit extradata ({sorted(lay_)[:1]}) is built under {sorted(t for t in ts_ if 'sighash' in t)}, not under "
+                              "`sighash_computation_mode == SighashComputationMode.SEGWIT`: legacy inputs would carry extradata and segwit inputs none")
     run.check("R1", seen_ops == ["BTC_TX", "TX_RECEIPT", "MERKLE_PROOF"], "steps in protocol order", key="sign_authorized|step-order-textual",
               where=sa.loc(), message=f"chunked steps appear as {seen_ops}")
     # merkle bounds (facts at the raise sites, local names expanded to what they stand for)
@@ -179,6 +191,14 @@ def run(run):
                   message=f"to_binary order test is `{norm(cn.ast)}`")
     os_ = sorted((norm(d_.value)) for d_ in defs_of(A, tb, "order_sign"))
     run.check("R1", os_ == ["'<'", "'>'"], "order signs are < and >", key="BIP32Path.to_binary|order-signs", where=tb.loc(), message=f"order signs {os_}")
+    for d_ in PV.defs(tb, B).get("order_sign", []):
+        ts_ = F.expanded(tb, B, d_.cnode, PV)
+        big = "byteorder == 'big'" in ts_
+        little = "byteorder != 'big'" in ts_
+        run.check("R1", (norm(d_.value) == "'>'" and big) or (norm(d_.value) == "'<'" and little), "'>' exactly under byteorder == 'big', '<' otherwise",
+                  key=f"BIP32Path.to_binary|order-sign-guard|{norm(d_.value)}", where=tb.loc(d_.node),
+                  message=f"to_binary selects the order sign {norm(d_.value)} under {sorted(t for t in ts_ if 'byteorder' in t)}: the default (little endian) "
+                          "encoding of the path sent to the device would be byte-swapped")
     el = P.method(B, "elements")
     rr = [n for n in A.own_nodes(el) if isinstance(n, ast.Return)]
     run.check("R1", len(rr) == 1 and norm(rr[0].value) == "self._elements", "elements property is the parsed list", key="BIP32Path.elements|getter",
@@ -245,6 +265,23 @@ def run(run):
               and isinstance(n.value.elts[0], ast.Constant) and n.value.elts[0].value is True]:
         run.check("R2", norm(r.value.elts[1]) == "HSM2DongleSignature(response[self.OFF.DATA:])", "unauthorized signature from the answer's data",
                   key="sign_unauthorized|signature-source", where=su.loc(r), message=f"unauthorized signing returns `{norm(r.value.elts[1])}`")
+        okS, SUCC = try_fold(P, ast.parse("self.OP.SIGN.SUCCESS", mode="eval").body, su, D)
+        okO, OPI_ = try_fold(P, ast.parse("self.OFF.OP", mode="eval").body, su, D)
+        us_send = find_calls(A, su, "_send_command")
+        for rn in gs.nodes_of(r):
+            good = False
+            for f in F.local(su, D, rn):
+                if f.kind != "cmp" or f.op != "==":
+                    continue
+                for a_, b_ in ((f.left, f.right), (f.right, f.left)):
+                    okc, cv = fold_local(run, PV, su, D, b_, f.node if f.node is not None else rn)
+                    if okc and okS and cv == SUCC:
+                        call_, idx_ = answer_field(run, PV, su, D, a_, f.node if f.node is not None else rn)
+                        if call_ is not None and us_send and call_ is us_send[0] and idx_ == [OPI_]:
+                            good = True
+            run.check("R2", good, "unauthorized: success only when the answer's op is SUCCESS", key="sign_unauthorized|success-guard", where=su.loc(r),
+                      message="sign_unauthorized can return (True, signature) although the device's answer does not carry op == SIGN.SUCCESS (e.g. it asked "
+                              "for a BTC transaction, or answered something unexpected): a signature would be parsed from an answer that holds none")
 
     # ---------------------------------------------------------------- R3
     _chunk_loop(run, PV, D, sdc, defaults)
